@@ -51,7 +51,7 @@ def check_api(table):
             return False
     pkg = objs["pkg"]
     subs = [m.fullName() for m in pkg.submodules()]
-    want = [n for n in ("pkg.a", "pkg.b") if not hid[n]]
+    want = sorted(n for n in ("pkg.a", "pkg.b", "pkg.__main__") if not hid[n])
     if sorted(subs) != want:
         note(why="Package.submodules() lists hidden or drops visible modules", got=subs, want=want)
         return False
